@@ -182,6 +182,17 @@ impl Property for C03 {
                 }
             }
         }
+        // families beyond the small scope (sizes around plausible limits: windows, inline capacities, two-digit suffixes)
+        {
+            let (n, fail) = super::smallscope::run_big_families(small_oracle);
+            st.evaluations += n;
+            st.nontrivial_enumerated += n;
+            st.add("big_families", n);
+            if let Some((label, e, docs)) = fail {
+                let first = e.lines().next().unwrap_or("").to_string();
+                return Err((Failure::new(format!("family `{}`: {}", label, first)).with_detail(json!({"documents": docs, "message": e})), json!({"big_family": label})));
+            }
+        }
         // counter / size thresholds: a child repeated n times inside one parent occurrence, n parent occurrences
         let ns: &[usize] = match tier {
             Tier::Quick => &[2, 3, 15, 16, 17, 31, 32, 33, 63, 64, 65, 127, 128, 129, 254, 255, 256, 257, 258, 511, 512, 513, 1023, 1024, 1025, 65535, 65536, 65537],
@@ -227,6 +238,9 @@ impl Property for C03 {
         Ok(())
     }
     fn replay_custom(&self, payload: &Value) -> Result<(), Failure> {
+        if let Some(l) = payload["big_family"].as_str() {
+            return super::smallscope::replay_big_family(l, small_oracle).map_err(|e| Failure::new(e.lines().next().unwrap_or("").to_string()));
+        }
         if let Some(n) = payload["threshold_n"].as_u64() {
             for docs in super::smallscope::threshold_family(n as usize) {
                 let bytes: Vec<Vec<u8>> = docs.iter().map(|d| crate::xmlser::canonical(d).into_bytes()).collect();
